@@ -1,21 +1,28 @@
-/* vocabulary for pxgstrf_pruneL.  The harness owns every object (in_*); g_* are ghosts (pre-state copies, ghost indices).
+/* vocabulary for pxgstrf_pruneL.  The harness owns every object (in_*); g_* are ghosts (pre-state copies, ghost indices, and
+ * three ghost arrays that only NAME a defined term so that the clauses stay small: g_seg, g_kmin, g_elig -- each is pinned to its
+ * definition by one requires clause and never appears in the code).
  * CAP = column capacity (n), LC = capacity of lsub (nzlmax), M = number of rows (capacity of perm_r).
- * Real capacities (pdmemory.c / pdgstrf_thread_init.c): xsup n+1, xsup_end n, supno n+1, xlsub n+1, xlsub_end n, xprune n, ispruned n. */
+ * Real capacities (p?memory.c / p?gstrf_thread_init.c): xsup n+1, xsup_end n, supno n+1, xlsub n+1, xlsub_end n, xprune n, ispruned n. */
+
+/* c occurs in segrep[0..nseg)  (definition, and its ghost name) */
+#define INSEG_DEF(c,t) EX(t, CAP, t < in_nseg && in_segrep[t] == (c))
+#define INSEG(c) (g_seg[c] != 0)
+/* c occurs in segrep[0..i) */
+#define DONE(c,t,i) EX(t, CAP, t < (i) && in_segrep[t] == (c))
+/* the supernode of c has one column (the library's SINGLETON macro) */
 #define SING(c) (in_xsup_end[in_supno[c]] - in_xsup[in_supno[c]] == 1)
-/* first position the function looks at in column c: the copy behind the list for a one-column supernode, the list itself otherwise */
+/* first position the function scans in column c: the copy behind the list for a one-column supernode, the list itself otherwise */
 #define KMIN_DEF(c) (SING(c) ? in_xlsub_end[c] : in_xlsub[c])
-/* ghost copy of it (pinned by [kmin_ghost] for every column in segrep): keeps the clause terms small */
 #define KMIN(c) g_kmin[c]
 /* c is the last column of its supernode (as far as supno tells) */
 #define LASTC(c) (in_supno[c] != in_supno[(c) + 1])
-/* c occurs in segrep[0..nseg) / in segrep[0..i) */
-#define INSEG(c,t) EX(t, CAP, t < in_nseg && in_segrep[t] == (c))
-#define DONE(c,t,i) EX(t, CAP, t < (i) && in_segrep[t] == (c))
 /* position k lies in the range of column c that is scanned (pre-state upper end) */
 #define INR0(c,k) (KMIN(c) <= (k) && (k) < g_xprune0[c])
-#define HASPIV(c,k) EX(k, LC, INR0(c,k) && g_lsub0[k] == in_pivrow)
-/* the documented pruning condition, on the pre-state */
-#define ELIG(c,k) (in_repfnz[c] != EMPTY && LASTC(c) && in_supno[c] != in_supno[in_jcol] && g_ispruned0[c] == 0 && HASPIV(c,k))
+/* the documented pruning condition on the pre-state: c is a representative of a non-empty U-segment, last column of a supernode other
+ * than jcol's, not pruned yet, and pivrow occurs in its scanned range */
+#define ELIG_DEF(c,t,k) (INSEG_DEF(c,t) && in_repfnz[c] != EMPTY && LASTC(c) && in_supno[c] != in_supno[in_jcol] && g_ispruned0[c] == 0 \
+  && EX(k, LC, INR0(c,k) && g_lsub0[k] == in_pivrow))
+#define ELIG(c) (g_elig[c] != 0)
 /* nonempty scanned ranges of two columns do not overlap */
 #define DISJ(a,b) (g_xprune0[a] <= KMIN(a) || g_xprune0[b] <= KMIN(b) || g_xprune0[a] <= KMIN(b) || g_xprune0[b] <= KMIN(a))
 /* what holds for the ghost column once it has been pruned (at ghost position g_k) */
@@ -24,8 +31,8 @@
   && ((in_xprune[g_c] <= g_k && g_k < g_xprune0[g_c]) ==> in_perm_r[in_lsub[g_k]] == EMPTY) \
   && (INR0(g_c,g_k) ==> (EX(k1, LC, INR0(g_c,k1) && in_lsub[k1] == g_lsub0[g_k]) && EX(k2, LC, INR0(g_c,k2) && g_lsub0[k2] == in_lsub[g_k]))))
 /* ... and while it has not */
-#define PRE(t3,k3) (in_xprune[g_c] == g_xprune0[g_c] && in_ispruned[g_c] == g_ispruned0[g_c] \
-  && ((INSEG(g_c,t3) && LASTC(g_c)) ==> FA(k3, LC, INR0(g_c,k3) ==> in_lsub[k3] == g_lsub0[k3])))
+#define PRE(k3) (in_xprune[g_c] == g_xprune0[g_c] && in_ispruned[g_c] == g_ispruned0[g_c] \
+  && ((INSEG(g_c) && LASTC(g_c)) ==> FA(k3, LC, INR0(g_c,k3) ==> in_lsub[k3] == g_lsub0[k3])))
 #define ROWS_OK(k) FA(k, LC, 0 <= in_lsub[k] && in_lsub[k] < M)
 #define COLS_OK(c,t,i) FA(c, CAP, (in_xprune[c] == g_xprune0[c] && in_ispruned[c] == g_ispruned0[c]) \
   || (g_ispruned0[c] == 0 && in_ispruned[c] == 1 && DONE(c,t,i) && LASTC(c) && KMIN(c) <= in_xprune[c] && in_xprune[c] <= g_xprune0[c]))
